@@ -1489,7 +1489,13 @@ class C30Remove(Base):
         self.hist_before = None
 
     def on_event(self, ev):
-        if ev['k'] == 'REMOVE_IN':
+        if ev['k'] == 'POOL_ADD':
+            # (a removed task can be spawned again, and even finish and
+            # leave the pool again, before the iteration's DB commit)
+            if not hasattr(self, 'readded'):
+                self.readded = {}
+            self.readded[ev['task']['id']] = self.drv.bus.it
+        elif ev['k'] == 'REMOVE_IN':
             self.cur = ev
             # committed history of every task before the command
             self.hist_before = self.read_history()
@@ -1727,7 +1733,9 @@ class C30Remove(Base):
                         bad = flows & set(rem) if explicit else flows
                         # a task re-added to the pool in the same iteration
                         # legitimately has a new row
-                        in_pool = any(t['id'] == tid for t in pool_snap)
+                        in_pool = any(t['id'] == tid for t in pool_snap) \
+                            or getattr(self, 'readded', {}).get(
+                                tid, -1) >= it
                         if bad and not in_pool:
                             self.v(f'history-not-erased:{table}',
                                    f'{tid}: {table} still has a row for '
